@@ -4,14 +4,25 @@
 (* (the implementation polls with a back-off capped at 100 ms), with the reply the  *)
 (* change calls for.  One-sided, generous bound; scenarios during which the host    *)
 (* stalled (stall_ms > 150) were repeated by the harness and are not judged here.   *)
+(* "deadline" events: a waiter whose context carries a deadline.  change = none: nothing happens to the key - the call       *)
+(* returns the context's error, and the context IS done when it returns (never a little early "because the next poll would   *)
+(* come too late"); change = expire: the record runs out long before the deadline - ErrNotExist within Bound of the expiry.   *)
 EXTENDS TraceLib
 CONSTANT Bound
 VARIABLE l
 Ev == Trace[l]
 Ok(e) == /\ e.stall_ms > 150 \/ e.late_ms <= Bound
          /\ e.res = (IF e.change = "put" THEN "nil" ELSE "notexist")
+OkDeadline(e) ==
+    IF e.change = "none"
+    THEN /\ e.res = "ctxerr" /\ e.ctxdone
+         /\ e.stall_ms > 150 \/ e.late_ms <= Bound
+    ELSE /\ e.res = "notexist"
+         /\ e.stall_ms > 150 \/ e.late_ms <= Bound
 Init == l = 1
-Next == l <= Len(Trace) /\ Ev.e = "prompt" /\ Ok(Ev) /\ l' = l + 1
+Next == /\ l <= Len(Trace) /\ l' = l + 1
+        /\ \/ Ev.e = "prompt" /\ Ok(Ev)
+           \/ Ev.e = "deadline" /\ OkDeadline(Ev)
 Spec == Init /\ [][Next]_l
 Accepted == AcceptByDiameter
 =============================================================================
